@@ -144,6 +144,8 @@ let env_ (vs : sexp) (ss : sexp) : Concrete.env =
     Concrete.env_string = (fun k -> match find k stab with Some v -> v | None -> failwith "driver: env lacks a string key") }
 let strs = function L l -> Stdlib.List.map str l | _ -> failwith "driver: string list expected"
 
+let optcut = function A "U" -> None | c -> Some (cut_ c)
+
 (* ---- expressions ---- *)
 let vop_ = function
   | A "eq" -> Expr.OEq | A "eqstar" -> Expr.OEqStar | A "exact" -> Expr.OExact | A "ne" -> Expr.ONe
@@ -191,6 +193,8 @@ let run (cmd : sexp) : sexp =
   | L [A "evalxpv"; pvk; L vs; ex; a] ->
       bool_ (Concrete.m_eval_extras_pv (num pvk) (Stdlib.List.map (fun v -> match value v with Coq_inl x -> x | _ -> failwith "driver: version expected") vs) (strs ex) (tree a))
   | L [A "withextra"; pv; pfv; a; name] -> stree (ExtrasProofs.m_with_extra (num pv) (num pfv) (tree a) (str name))
+  | L [A "simppv"; pfv; lo; hi; a] -> stree (Concrete.m_simplify_pv (num pfv) (optcut lo, optcut hi) (tree a))
+  | L [A "cplxpv"; pfv; lo; hi; a] -> stree (Concrete.m_complexify_pv (num pfv) (optcut lo, optcut hi) (tree a))
   | L [A "valcmp"; a; b] -> scmp (Concrete.m_val_cmp (value a) (value b))
   | L [A "varcmp"; a; b] -> scmp (Concrete.m_var_cmp (var_ a) (var_ b))
   | L [A "substring"; a; b] -> bool_ (Concrete.substring (str a) (str b))
